@@ -193,6 +193,8 @@ pub struct Cluster {
     pub delivered: u64,
     pub in_suffix: bool,
     pub sync_tasks: Vec<tokio::task::JoinHandle<()>>,
+    /// Decides which synced blocks a faulty peer tampers with (own stream: plans are unaffected).
+    pub sync_rng: crate::kit::SimRng,
     pub panics_seen: usize,
     /// Shutting down: keep stepping even though a violation was recorded.
     pub draining: bool,
@@ -330,6 +332,7 @@ impl Cluster {
             delivered: 0,
             in_suffix: false,
             sync_tasks: vec![],
+            sync_rng: kit::stream(cfg.seed, "sync-tamper"),
             panics_seen: kit::panics::count(),
             draining: false,
             obs,
@@ -957,6 +960,17 @@ impl Cluster {
         };
         self.hub.fault("block_sync");
         self.hub.ev(format!("sync block {want} -> n{i}"));
+        // A faulty peer serves the genuine certificate with a foreign payload (never in the fair
+        // suffix, where block sync is what progress is owed to).
+        let mut block = block;
+        if !self.in_suffix && self.sync_rng.gen_range(0..100) < 25 {
+            self.hub.fault("block_sync_tampered_payload");
+            self.hub.ev(format!("   (payload of block {want} altered by the serving peer)"));
+            match &mut block {
+                validator::Block::FinalV2(f) => f.payload.0.push(0x66),
+                validator::Block::PreGenesis(p) => p.payload.0.push(0x66),
+            }
+        }
         let clock = self.nodes[i].clock.clone();
         let hub = self.hub.clone();
         self.sync_tasks.push(gtokio::spawn(async move {
